@@ -176,10 +176,12 @@ class Check:
         for fnd in self.findings:
             if fnd.get('status', 'open') == 'open' and fnd['id'] in self.known_hits:
                 print(f"KNOWN-FINDING: property={self.pid} {fnd['id']}: {fnd['what']} (hit {self.known_hits[fnd['id']]}x)")
-        if bad_controls:
+        if bad_controls and not self.violations:
             print(f'MACHINERY: negative controls not detected: {bad_controls}')
             sys.exit(2)
         if self.violations:
+            if bad_controls:   # a changed library can also defeat a control; the violations are what matters
+                print(f'note: negative controls not detected in this run: {[c["control"] for c in bad_controls]}')
             shown = 0
             groups: dict[str, list] = {}
             for v in self.violations:
